@@ -23,6 +23,9 @@ EXIT_OK, EXIT_VIOLATION, EXIT_INCONCLUSIVE = 0, 1, 3
 RTOL = 1e-7
 
 
+CRASH_LABEL = "no-unexpected-exception"  # implicit assertion of every harness: legal inputs do not make the code raise
+
+
 class Reject(Exception):
     """raised by a scenario to signal a structural problem of the harness itself"""
 
@@ -384,7 +387,17 @@ def run_cell(h, cell, tier, seed, budget_s):
         def fn(ctx):
             inp = h.inputs(ctx, cell)
             ctx.inputs = inp
-            out = h.scenario(W, inp, cell)
+            try:
+                out = h.scenario(W, inp, cell)
+            except Exception as e:  # noqa  (Abort / Inconclusive / ModelGap are BaseExceptions and pass through)
+                if getattr(ctx, "vacuity_probe", False):
+                    raise
+                # the code under test raised on inputs the harness considers legal: a finding *iff* the real stack
+                # raises the same exception on a model of this path (decided by the replay); otherwise a harness error
+                ctx.out = None
+                ctx.crash = (type(e).__name__, str(e)[:200], traceback.format_exc()[-1500:])
+                ctx.prove(False, CRASH_LABEL, {"raised": type(e).__name__, "message": str(e)[:200]})
+                return None
             ctx.out = out
             h.oracle(SymP(ctx), inp, out, cell)
             return None
@@ -548,8 +561,19 @@ def _replay_violation(h, cell, v, ctx):
             last = rec
             continue
         except Exception as e:
+            if v.label == CRASH_LABEL and type(e).__name__ == (v.detail or {}).get("raised"):
+                rec["reproduced"] = True
+                rec["failure"] = {"raised": type(e).__name__, "message": str(e)[:200]}
+                rec["trace"] = traceback.format_exc()[-1500:]
+                rec["signature"] = _sig(h, v.label, to_float(inp_exact), cell, rec["failure"])
+                return rec
             rec["why"] = "concrete run raised %s: %s" % (type(e).__name__, e)
             rec["trace"] = traceback.format_exc()[-1500:]
+            last = rec
+            continue
+        if v.label == CRASH_LABEL:
+            rec["why"] = "symbolic run raised %s but the real stack does not raise on these inputs" % ((v.detail or {}).get("raised"),)
+            rec["sym_trace"] = getattr(ctx, "crash", ("", "", ""))[2]
             last = rec
             continue
         rec["real_outputs"] = _js(out_c)
@@ -763,6 +787,16 @@ def replay_file(h, path):
         body = json.load(fh)
     cell = body["cell"]
     inp = _unjs(body["inputs"])
+    if body["label"] == CRASH_LABEL:
+        try:
+            _concrete_run(h, cell, inp, table=_unjs(body.get("uf_table") or {}))
+        except Exception as e:  # noqa
+            print("inputs:", json.dumps(_js(inp))[:1000])
+            print("REPRODUCED label=%s raised %s: %s" % (body["label"], type(e).__name__, str(e)[:300]))
+            print("VIOLATION property=%s replay=%s" % (h.pid, path))
+            return EXIT_VIOLATION
+        print("not reproduced (no exception)")
+        return EXIT_OK
     out, fails, evaluated, _ = _concrete_run(h, cell, inp, table=_unjs(body.get("uf_table") or {}))
     print("inputs:", json.dumps(_js(inp))[:1000])
     print("real outputs:", json.dumps(_js(out))[:1000])
